@@ -7,6 +7,7 @@
 //! (c) every single-/double-bit corruption of valid packets whose checksum then fails under the
 //!     independent verifier must have no effect on sockets or replies (`cksum/partc.rs`).
 
+mod lowpan;
 mod parta;
 mod partb;
 mod partc;
@@ -27,6 +28,7 @@ pub fn run(tier: Tier) -> i32 {
     parta::run(&mut rep, tier);
     let ta = t.elapsed().as_secs_f64();
     partb::run(&mut rep, tier);
+    lowpan::run(&mut rep, tier);
     let tb = t.elapsed().as_secs_f64();
     partc::run(&mut rep, tier);
     let tc = t.elapsed().as_secs_f64();
@@ -40,6 +42,7 @@ pub fn replay(art: &serde_json::Value) -> i32 {
     match r["part"].as_str().unwrap_or("") {
         "a-data" | "a-combine" | "a-pseudo" => parta::replay(r),
         "b" => partb::replay(r),
+        "b6" => lowpan::replay(r),
         "c" => partc::replay(r),
         other => {
             eprintln!("unknown replay part {:?}", other);
